@@ -224,12 +224,12 @@ Section PopOps.
   (** the generic "re-index and accumulate into a fresh Spectrum" step shared by combine_two_pops and
       Misc.combine_pops: values add up, the mask is the corner mask OR-ed with every contributor's mask *)
   Definition push_scatter (newshape : list nat) (f : idx -> idx) (vals : idx -> F) (msk : idx -> bool)
-                          (a : spec) (labels : option (list string)) : spec :=
+                          (a : spec) (labels : option (list string)) (folded : bool) : spec :=
     let accv := scatter nadd (indices (sh a)) f vals (fun _ => n0) in
     let accm := scatter orb (indices (sh a)) f msk (is_corner newshape) in
     let tv := tabulate newshape accv in
     let tm := tabulate newshape accm in
-    {| sh := newshape; va := lookup n0 tv; mk := lookup true tm; ids := labels; fo := false |}.
+    {| sh := newshape; va := lookup n0 tv; mk := lookup true tm; ids := labels; fo := folded |}.
 
   (** *** combine_two_pops([p,q]) with 1-based population numbers *)
   Definition merge2 {A} (op : A -> A -> A) (dflt : A) (t0 t1 : nat) (l : list A) : list A :=
@@ -242,7 +242,7 @@ Section PopOps.
                   | Some l => Some (merge2 (fun x y => (x ++ "+" ++ y)%string) EmptyString t0 t1 l)
                   | None => None
                   end in
-    push_scatter newshape (merge2 Nat.add 0%nat t0 t1) (va a) (mk a) a labels.
+    push_scatter newshape (merge2 Nat.add 0%nat t0 t1) (va a) (mk a) a labels (fo a).   (* new_fs.folded = self.folded *)
 
   (** *** combine_pops(tocombine) *)
   Definition combine_pops (tocombine : list nat) (a : spec) : spec :=
@@ -262,10 +262,10 @@ Section PopOps.
     let nomask := fun _ : idx => false in
     match sh a with
     | [s0; s1] =>
-      Some (push_scatter [s0 + s1 - 1]%nat (fun I => [nth 0 I 0 + nth 1 I 0]%nat) (va a) nomask a None)
+      Some (push_scatter [s0 + s1 - 1]%nat (fun I => [nth 0 I 0 + nth 1 I 0]%nat) (va a) nomask a None false)
     | [s0; s1; s2] =>
       let go x y z := Some (push_scatter [nth x (sh a) 0 + nth y (sh a) 0 - 1; nth z (sh a) 0]%nat
-                                         (fun I => [nth x I 0 + nth y I 0; nth z I 0]%nat) (va a) nomask a None) in
+                                         (fun I => [nth x I 0 + nth y I 0; nth z I 0]%nat) (va a) nomask a None false) in
       match idxs with
       | [0; 1]%nat => go 0%nat 1%nat 2%nat
       | [0; 2]%nat => go 0%nat 2%nat 1%nat
